@@ -37,6 +37,12 @@ def gen_case(rng, boundary=False):
     tt = tt.astype(dtype)
     dt = float(2.0 ** -int(rng.integers(0, 6)))
     t0 = float(rng.integers(-40, 40)) * 2.0 ** -4
+    far = rng.random() < 0.15
+    if far:
+        # an acquisition window that starts far from zero in units of the sampling step, at an instant a single-precision number
+        # cannot hold (the start and the step of the time axis are double-precision numbers whatever the lookup times are)
+        t0 = float(2 ** 10 + int(rng.integers(1, 8)) * 2.0 ** -15)
+        dt = 2.0 ** -5
     q = dt / 4
     # lookup locations on quarter samples, from before the window to after it
     lo, hi = -6, 4 * ns + 6
@@ -49,7 +55,7 @@ def gen_case(rng, boundary=False):
         crit = [-4, -3, -2, -1, 0, 1, 2, 6, 10, 4 * ns - 6, 4 * ns - 4, 4 * ns - 2, 4 * ns - 1, 4 * ns]
         lt_tx = (rng.choice(crit, size=(npts, numel)) * q + t0).astype(float)
         lt_rx = (rng.choice([0, 0, 1, -1, 4], size=(npts, numel)) * q).astype(float)
-    ltdtype = np.float32 if rng.random() < 0.25 else np.float64
+    ltdtype = np.float32 if (not far and rng.random() < 0.25) else np.float64   # (far windows: double-precision times only, see DESIGN 9.18)
     lt_tx, lt_rx = lt_tx.astype(ltdtype), lt_rx.astype(ltdtype)
     amp = rng.random() < 0.45
     amp_tx = rng.integers(-3, 4, size=(npts, numel)).astype(float)
